@@ -19,7 +19,7 @@ ASSUMPTIONS = ["shape tolerance 1e-9 * exact magnitude scale", "knot vectors com
 
 @st.composite
 def ins_desc(draw):
-    k = draw(st.sampled_from(["in", "in", "knot", "knot", "other", "near", "decimal", "again"]))
+    k = draw(st.sampled_from(["in", "in", "knot", "knot", "other", "near", "decimal", "decimal", "again"]))
     return [k, draw(st.integers(0, 63)), draw(st.integers(1, 63)) / 64.0, draw(st.integers(0, 7))]
 
 
